@@ -62,24 +62,43 @@ impl<W: World, V: AsRef<str>> writer::Arbitrary<W, V> for RecW {
     }
 }
 
+impl RecW {
+    /// Counts received scenario events of kind `k` satisfying `p`.
+    fn count(&self, p: impl Fn(&Value) -> bool) -> usize {
+        self.log
+            .borrow()
+            .iter()
+            .filter_map(|l| l.get("ev"))
+            .filter(|e| p(e))
+            .count()
+    }
+}
+
+fn is_retried_failure(e: &Value) -> bool {
+    e["retr"] == true
+        && e["left"].as_u64().unwrap_or(0) > 0
+        && e["err"] != "notfound"
+}
+
+/// `Stats` by plainly counting what was received (replays included).
 impl<W: World> Stats<W> for RecW {
     fn passed_steps(&self) -> usize {
-        0
+        self.count(|e| e["k"] == "StepP")
     }
     fn skipped_steps(&self) -> usize {
-        0
+        self.count(|e| e["k"] == "StepSk")
     }
     fn failed_steps(&self) -> usize {
-        0
+        self.count(|e| e["k"] == "StepF" && !is_retried_failure(e))
     }
     fn retried_steps(&self) -> usize {
-        0
+        self.count(|e| e["k"] == "StepF" && is_retried_failure(e))
     }
     fn parsing_errors(&self) -> usize {
-        0
+        self.count(|e| e["t"] == "ParseErr")
     }
     fn hook_errors(&self) -> usize {
-        0
+        self.count(|e| e["k"] == "HookF")
     }
 }
 
@@ -506,4 +525,278 @@ pub fn replay_normalize(objs: &Objects, stream: &[Value]) -> Value {
         }
     }
     json!({"outs": outs, "panic": panicked.unwrap_or_default()})
+}
+
+// ------------------------------------------------- replay: summarize ----
+
+fn build_items(objs: &Objects, stream: &[Value]) -> Vec<Item<RWorld>> {
+    let nerr = stream.iter().filter(|e| e["t"] == "ParseErr").count();
+    stream.iter().map(|e| objs.build(e, nerr)).collect()
+}
+
+/// Replays one sequential stream through the real `Summarize<RecW>` and the
+/// named stats pipelines.
+pub fn replay_summarize(
+    objs: &Objects,
+    stream: &[Value],
+    pipelines: &[String],
+) -> Value {
+    let items = build_items(objs, stream);
+    let rec = RecW::default();
+    let log = Rc::clone(&rec.log);
+    let mut wr = Summarize::new(rec);
+    let r = panic::catch_unwind(AssertUnwindSafe(|| {
+        feed::<RWorld, _>(&mut wr, &cli::Empty, &items);
+    }));
+    let panic_msg = r
+        .err()
+        .map(|p| format!("{:?}", evjson::payload(&Arc::from(p))))
+        .unwrap_or_default();
+    let sc = *wr.scenarios_stats();
+    let st = *wr.steps_stats();
+    let actual = json!({
+        "passed_steps": Stats::<RWorld>::passed_steps(&wr),
+        "skipped_steps": Stats::<RWorld>::skipped_steps(&wr),
+        "failed_steps": Stats::<RWorld>::failed_steps(&wr),
+        "retried_steps": Stats::<RWorld>::retried_steps(&wr),
+        "parsing_errors": Stats::<RWorld>::parsing_errors(&wr),
+        "hook_errors": Stats::<RWorld>::hook_errors(&wr),
+        "failed": Stats::<RWorld>::execution_has_failed(&wr),
+        "sc_passed": sc.passed, "sc_skipped": sc.skipped,
+        "sc_failed": sc.failed, "sc_retried": sc.retried,
+        "st_passed": st.passed, "st_skipped": st.skipped,
+        "st_failed": st.failed, "st_retried": st.retried,
+        "features": 0, "rules": 0,
+    });
+    let mut actual = actual;
+    // features / rules are only visible in the summary text
+    let summary: String = log
+        .borrow()
+        .iter()
+        .filter_map(|l| l.get("write").and_then(Value::as_str).map(str::to_owned))
+        .collect::<Vec<_>>()
+        .join("\n");
+    let num = |re: &str| {
+        Regex::new(re)
+            .unwrap()
+            .captures(&summary)
+            .and_then(|c| c[1].parse::<u64>().ok())
+            .unwrap_or(0)
+    };
+    actual["features"] = json!(num(r"(\d+) features?"));
+    actual["rules"] = json!(num(r"(\d+) rules?"));
+    let logk: Vec<Value> = log
+        .borrow()
+        .iter()
+        .map(|l| {
+            l.get("ev").map_or_else(
+                || json!("write"),
+                |e| json!(format!("ev:{}", e["t"].as_str().unwrap_or(""))),
+            )
+        })
+        .collect();
+    let verdicts = feed_pipelines::<RWorld>(pipelines, items);
+    json!({"actual": actual, "log": logk, "verdicts": verdicts,
+           "panic": panic_msg, "summary": summary})
+}
+
+// ------------------------------------------------- replay: combinators ----
+
+fn leaf_log(objs: &Objects, log: &Rc<RefCell<Vec<Value>>>) -> Value {
+    Value::Array(
+        log.borrow()
+            .iter()
+            .map(|l| match l.get("ev") {
+                Some(d) => objs.to_tla(d),
+                None => json!({"t":"Write","f":"","r":"","s":"","k":"","h":"",
+                               "i":0,"err":"","cur":0,"left":0,"retr":false}),
+            })
+            .collect(),
+    )
+}
+
+fn stats6<W, Wr: Stats<W>>(wr: &Wr) -> Value {
+    json!({"passed": wr.passed_steps(), "skipped": wr.skipped_steps(),
+           "failed": wr.failed_steps(), "retried": wr.retried_steps(),
+           "perr": wr.parsing_errors(), "herr": wr.hook_errors()})
+}
+
+enum In {
+    Ev(Item<RWorld>),
+    Write,
+}
+
+fn drive_comb<Wr>(wr: &mut Wr, cli: &Wr::Cli, inp: &[In], writes: bool)
+where
+    Wr: Writer<RWorld> + writer::Arbitrary<RWorld, String>,
+{
+    futures::executor::block_on(async {
+        for x in inp {
+            match x {
+                In::Ev(it) => wr.handle_event(it.clone(), cli).await,
+                In::Write if writes => wr.write("w".to_owned()).await,
+                In::Write => {}
+            }
+        }
+    });
+}
+
+fn drive_with_writes<Wr>(wr: &mut Wr, cli: &Wr::Cli, inp: &[In])
+where
+    Wr: Writer<RWorld> + writer::Arbitrary<RWorld, String>,
+{
+    drive_comb(wr, cli, inp, true);
+}
+
+fn drive_events<Wr: Writer<RWorld>>(wr: &mut Wr, cli: &Wr::Cli, inp: &[In]) {
+    futures::executor::block_on(async {
+        for x in inp {
+            if let In::Ev(it) = x {
+                wr.handle_event(it.clone(), cli).await;
+            }
+        }
+    });
+}
+
+/// Runs every nesting of Combinators.tla over one input.
+pub fn replay_comb(objs: &Objects, inp: &[Value]) -> Value {
+    let nerr = inp.iter().filter(|e| e["t"] == "ParseErr").count();
+    let input: Vec<In> = inp
+        .iter()
+        .map(|e| {
+            if e["t"] == "Write" {
+                In::Write
+            } else {
+                In::Ev(objs.build(e, nerr))
+            }
+        })
+        .collect();
+    let mut results = serde_json::Map::new();
+    let mut panics = String::new();
+    let e = &cli::Empty;
+    let ee = &cli::Compose { left: cli::Empty, right: cli::Empty };
+    macro_rules! one {
+        ($name:expr, $mk:expr) => {{
+            let leaf = RecW::default();
+            let log = Rc::clone(&leaf.log);
+            let r = panic::catch_unwind(AssertUnwindSafe(|| {
+                let mut wr = $mk(leaf);
+                drive_comb(&mut wr, e, &input, true);
+                stats6::<RWorld, _>(&wr)
+            }));
+            match r {
+                Ok(st) => {
+                    results.insert(
+                        $name.into(),
+                        json!({"leaves": [leaf_log(objs, &log)], "stats": st}),
+                    );
+                }
+                Err(p) => {
+                    panics.push_str(&format!(
+                        "{}: {:?}; ",
+                        $name,
+                        evjson::payload(&Arc::from(p))
+                    ));
+                    results.insert(
+                        $name.into(),
+                        json!({"leaves": [[]], "stats": {}}),
+                    );
+                }
+            }
+        }};
+    }
+    one!("fos", |l: RecW| FailOnSkipped::new(l));
+    one!("fos_custom", |l: RecW| FailOnSkipped::with(
+        l,
+        |_: &gherkin::Feature,
+         _: Option<&gherkin::Rule>,
+         s: &gherkin::Scenario| s.name == "S1"
+    ));
+    one!("rep_skipped", |l: RecW| Repeat::<RWorld, _>::skipped(l));
+    one!("rep_failed", |l: RecW| Repeat::<RWorld, _>::failed(l));
+    one!("rep_custom", |l: RecW| Repeat::<RWorld, _, _>::new(
+        l,
+        |ev: &Item<RWorld>| {
+            use cucumber::event::{Feature, Rule};
+            matches!(
+                ev.as_deref(),
+                Ok(Cucumber::Feature(
+                    _,
+                    Feature::Started | Feature::Rule(_, Rule::Started)
+                ))
+            )
+        }
+    ));
+    one!("fos_rep_failed", |l: RecW| FailOnSkipped::new(
+        Repeat::<RWorld, _>::failed(l)
+    ));
+    macro_rules! two {
+        ($name:expr, $mk:expr, $drive:ident) => {{
+            let (a, b) = (RecW::default(), RecW::default());
+            let (la, lb) = (Rc::clone(&a.log), Rc::clone(&b.log));
+            let r = panic::catch_unwind(AssertUnwindSafe(|| {
+                let mut wr = $mk(a, b);
+                $drive(&mut wr, ee, &input);
+                stats6::<RWorld, _>(&wr)
+            }));
+            match r {
+                Ok(st) => {
+                    results.insert(
+                        $name.into(),
+                        json!({"leaves": [leaf_log(objs, &la), leaf_log(objs, &lb)],
+                               "stats": st}),
+                    );
+                }
+                Err(p) => {
+                    panics.push_str(&format!(
+                        "{}: {:?}; ",
+                        $name,
+                        evjson::payload(&Arc::from(p))
+                    ));
+                    results.insert(
+                        $name.into(),
+                        json!({"leaves": [[], []], "stats": {}}),
+                    );
+                }
+            }
+        }};
+    }
+    two!(
+        "tee",
+        |a: RecW, b: RecW| Tee::new(a, writer::discard::Stats::wrap(b)),
+        drive_with_writes
+    );
+    two!(
+        "tee_rep",
+        |a: RecW, b: RecW| Tee::new(
+            Repeat::<RWorld, _>::failed(a),
+            Repeat::<RWorld, _>::skipped(b)
+        ),
+        drive_with_writes
+    );
+    two!(
+        "tee_discard",
+        |a: RecW, b: RecW| Tee::new(writer::discard::Arbitrary::wrap(a), b),
+        drive_with_writes
+    );
+    let or_left = |ev: &Item<RWorld>,
+                   _: &cli::Compose<cli::Empty, cli::Empty>| {
+        let d = evjson::describe(ev);
+        d["t"] == "ParseErr" || (d["t"] == "Sc" && d["s"] == "S1")
+    };
+    two!(
+        "or",
+        |a: RecW, b: RecW| writer::Or::new(a, b, or_left),
+        drive_events
+    );
+    two!(
+        "or_discard_stats",
+        |a: RecW, b: RecW| writer::Or::new(
+            a,
+            writer::discard::Stats::wrap(b),
+            or_left
+        ),
+        drive_events
+    );
+    json!({"results": results, "panic": panics})
 }
